@@ -324,7 +324,7 @@ PROPS["C18"] = {
                  "WhatIs.C18.tables_ok", "WhatIs.C18.split_three", "WhatIs.C18.jwt_iff", "WhatIs.C18.registered_readback",
                  "WhatIs.C18.alg_readback", "WhatIs.C18.numeric_dates", "WhatIs.C18.date_strings", "WhatIs.C18.date_bound", "WhatIs.C18.date_string_fallback", "WhatIs.C18.absent_not_shown", "WhatIs.C18.header_claims_apart", "WhatIs.C18.order_independent",
                  "WhatIs.C18.signature_readback", "WhatIs.C18.json_object_readback", "WhatIs.C18.json_members_in_order",
-                 "WhatIs.C18.json_string_readback", "WhatIs.C18.registered_from_text", "WhatIs.C18.numeric_date_from_text", "WhatIs.C18.jwt_token_from_text"],
+                 "WhatIs.C18.json_string_readback", "WhatIs.C18.registered_from_text", "WhatIs.C18.numeric_date_from_text", "WhatIs.C18.jwt_token_from_text", "WhatIs.C18.json_string_fuel"],
     "facts": {"jwt.rangesOverMap": False, "jwt.nullRejected": True, "jwt.numericDates": True, "jwt.emptyShown": True,
               "jwt.paramCount": 17, "jwt.algCount": 12, "jwt.dateBoundLog2": 62, "jwt.dateStringFallback": True},
     "nontrivial": nt_c18,
